@@ -388,6 +388,96 @@ def r07_4(ctx):
                 ok = t == 'vals[...,:-1]/vals[...,-1:]'
                 ctx.decide('R07.4', q, src(s), ok, s, 'value = numerator components / weight (last component)')
     ctx.floor('R07.4', 'value quotient sites', n, 2)
+    _hessian_linearisation(ctx, f2)
+
+
+def _hessian_linearisation(ctx, nurbs_hess):
+    """The linearised symmetric Hessian lists its components in one order at every producer: the B-spline routine
+    enumerates pairs of (reversed) axes by a loop nest, the NURBS routine selects entries of a coordinate-ordered matrix by an
+    index-pair generator.  Both are small finite enumerations: model them for sdim = 1, 2, 3 and compare as unordered pairs."""
+    bh = ctx.prog.maybe_func(B + '._BaseSplineFunc.grid_hessian')
+    if bh is None:
+        cands = [f for q, f in ctx.prog.functions.items() if q.startswith(B + '.') and q.endswith('.grid_hessian')]
+        if not cands:
+            raise AnchorMissing('R07.4: B-spline grid_hessian not found')
+        bh = cands[0]
+
+    def range_model(it):
+        """iteration order of `range(n)` / `reversed(range(n))` with n in {S, var+1}: returns (fn(env)->list) or None"""
+        rev = False
+        if isinstance(it, ast.Call) and call_name(it) == 'reversed' and len(it.args) == 1:
+            rev, it = True, it.args[0]
+        if not (isinstance(it, ast.Call) and call_name(it) == 'range' and len(it.args) == 1):
+            return None
+        a = it.args[0]
+        t = src(a).replace(' ', '')
+
+        def bound(env):
+            if t in ('self.sdim', 'd', 'sdim'):
+                return env['S']
+            if isinstance(a, ast.BinOp) and isinstance(a.op, ast.Add):
+                l, r = a.left, a.right
+                if isinstance(r, ast.Constant) and isinstance(l, ast.Name) and l.id in env:
+                    return env[l.id] + r.value
+                if isinstance(l, ast.Constant) and isinstance(r, ast.Name) and r.id in env:
+                    return env[r.id] + l.value
+            if isinstance(a, ast.Name) and a.id in env:
+                return env[a.id]
+            return None
+
+        def f(env):
+            b = bound(env)
+            if b is None:
+                return None
+            seq = list(range(b))
+            return seq[::-1] if rev else seq
+        return f
+
+    loops = [s for s in own_nodes(bh.node) if isinstance(s, ast.For)]
+    outer = None
+    for lo in loops:
+        inner = [s for s in lo.body if isinstance(s, ast.For)]
+        if inner and any('i_hess' in src(x) or 'D[' in src(x) for x in ast.walk(inner[0]) if isinstance(x, (ast.Assign, ast.AugAssign))):
+            outer = (lo, inner[0])
+            break
+    gen = [c for c in ast.walk(nurbs_hess.node) if isinstance(c, ast.Call) and (call_name(c) or '').split('.')[-1] in ('triu_indices', 'tril_indices')]
+    if outer is None or not gen or not isinstance(outer[0].target, ast.Name) or not isinstance(outer[1].target, ast.Name):
+        ctx.undecided('R07.4', nurbs_hess.qual, 'order of the linearised Hessian components', nurbs_hess.node, 'enumeration not recognised')
+        return
+    fo, fi = range_model(outer[0].iter), range_model(outer[1].iter)
+    # the derivative multi-index D is indexed by AXIS (x last): axis a <-> coordinate S-1-a
+    incs = [src(s.target).replace(' ', '') for s in ast.walk(outer[1]) if isinstance(s, ast.AugAssign) and src(s.target).startswith('D[')]
+    vi, vj = outer[0].target.id, outer[1].target.id
+    g = gen[0]
+    kind = call_name(g).split('.')[-1]
+    koff = 0
+    if len(g.args) > 1 and isinstance(g.args[1], ast.Constant):
+        koff = g.args[1].value
+    for kw in g.keywords:
+        if kw.arg == 'k' and isinstance(kw.value, ast.Constant):
+            koff = kw.value.value
+    if fo is None or fi is None or sorted(incs) != sorted(['D[%s]' % vi, 'D[%s]' % vj]):
+        ctx.undecided('R07.4', nurbs_hess.qual, 'order of the linearised Hessian components', g, 'B-spline enumeration not recognised')
+        return
+    bad = None
+    for S in (1, 2, 3):
+        seq_b = []
+        for i in fo({'S': S}) or []:
+            for j in fi({'S': S, vi: i}) or []:
+                seq_b.append(frozenset((S - 1 - i, S - 1 - j)))
+        if kind == 'triu_indices':
+            seq_n = [frozenset((r, c)) for r in range(S) for c in range(S) if c - r >= koff]
+        else:
+            seq_n = [frozenset((r, c)) for r in range(S) for c in range(S) if c - r <= koff]
+        if seq_b != seq_n:
+            bad = (S, seq_b, seq_n)
+            break
+    names = 'xyz'
+    fmt = lambda seq: ', '.join(''.join(sorted(names[k] for k in p) * (2 if len(p) == 1 else 1)) for p in seq)
+    ctx.decide('R07.4', nurbs_hess.qual, 'order of the linearised Hessian components agrees with the B-spline Hessian (sdim = 1, 2, 3)', bad is None, g,
+               'Nhess1 (B-spline order) and the quotient-rule correction are subtracted componentwise'
+               + ('' if bad is None else ': for sdim = %d the B-spline routine lists (%s) but %s selects (%s)' % (bad[0], fmt(bad[1]), kind, fmt(bad[2]))),
+               definite=True)
     # weight = last component at every slicing site of NurbsFunc
     cls = ctx.prog.cls(G + '.NurbsFunc')
     k = 0
